@@ -409,7 +409,8 @@ def run_case(c):
                     "ctx-salt": {"salt": x["salt"] + b"\x01"},
                     "ctx-sid": {"sid": (x["sid"] + b"\x01")[: IV_BYTES[x["alg"]] - 6] if len(x["sid"]) < IV_BYTES[x["alg"]] - 6 else bytes([x["sid"][0] ^ 1]) + x["sid"][1:]},
                     "ctx-rid": {"rid": (x["rid"] + b"\x01")[: IV_BYTES[x["alg"]] - 6] if len(x["rid"]) < IV_BYTES[x["alg"]] - 6 else bytes([x["rid"][0] ^ 1]) + x["rid"][1:]},
-                    "ctx-idctx": {"idctx": (x["idctx"] or b"") + b"\x01"},
+                    # another ID context: a longer one, or -- the smallest possible difference -- empty versus absent
+                    "ctx-idctx": {"idctx": (b"" if x["idctx"] is None else None) if (n % 3 == 0 and x["idctx"] in (None, b"")) else (x["idctx"] or b"") + b"\x01"},
                     "ctx-alg": {"alg": [a for a in ALGS if IV_BYTES[a] == IV_BYTES[x["alg"]] and a != x["alg"]][n % max(1, len([a for a in ALGS if IV_BYTES[a] == IV_BYTES[x["alg"]] and a != x["alg"]]))] if [a for a in ALGS if IV_BYTES[a] == IV_BYTES[x["alg"]] and a != x["alg"]] else x["alg"]},
                 }[kind]
                 if over.get("sid") == x["rid"] or over.get("rid") == x["sid"] or over == {"alg": x["alg"]}:
